@@ -6,6 +6,7 @@ package main
 
 import (
 	"fmt"
+	"github.com/koykov/decoder"
 	"reflect"
 	"regexp"
 	"sort"
@@ -460,11 +461,11 @@ func init() {
 			}, hasTrace, refOracle)
 	}
 	runners["C17"] = func(cfg *runCfg) (*Summary, error) {
-		return runInterp(cfg, "C17", 220, 2500,
-			"calls with 0-5 arguments mixing literals, paths, loop / static / context variables and coalesce groups; chains of 0-4 modifiers (builtin, user, namespaced); coalesce sources with 1-3 keys in all missing / null / present patterns; every user function records the arguments it receives",
-			func(r *prng, i int, st map[string]int) *ICase {
-				return singleJob("calls", genCallsJob(r, st))
-			}, hasTrace, noPanic)
+		sum, err := runC17(cfg)
+		if err == nil {
+			aliasOracle(sum)
+		}
+		return sum, err
 	}
 	runners["C19"] = func(cfg *runCfg) (*Summary, error) {
 		return runInterp(cfg, "C19", 220, 2500,
@@ -647,7 +648,11 @@ func genCtxVarJob(r *prng, o genOpts, st map[string]int) Job {
 	n := 4 + r.intn(5)
 	for i := 0; i < n; i++ {
 		nm := pick(r, names)
-		switch r.intn(10) {
+		switch r.intn(11) {
+		case 10:
+			// rebinding to an empty container: it is a value like any other
+			g.emit("ctx." + nm + " = " + pick(r, []string{"jso.ea", "jso.eo"}))
+			g.emit("probe(\"after-empty\", " + nm + ", " + nm + ".k)")
 		case 8, 9:
 			// rebinding from a source that resolves to nothing: the latest
 			// binding wins all the same (the name now reads nil)
@@ -746,11 +751,14 @@ func genBuiltinJob(r *prng, st map[string]int) Job {
 	addk("fl", jBool(false))
 	addk("nul", jNull())
 	addk("w", jStr(pick(r, words)))
+	// escaped in the document's text, read for the first time by the builtin
+	addk("esc", jStr("Joe \"Q\" Public\tjr"))
+	addk("esc2", jStr("a\\b\"c"))
 	var lines []string
 	dsts := []string{"obj.Id", "obj.Name", "ts.S", "ts.B", "ts.I64", "ts.U64", "ts.I32", "obj.Finance.AllowBuy", "obj.Status"}
 	incoming := []string{"jso.s1", "jso.e", "jso.z", "jso.n", "jso.one", "jso.t", "jso.fl", "jso.nul", "jso.missing", "jso.w",
 		"st.Id", "st.Name", "st.Status", "st.Finance.AllowBuy", "st.Nope", "zi", "oi", "es", "ns", "bt", "bf", "zu"}
-	argv := []string{`"d"`, "5", "jso.w", "jso.nul", "st.Id", "true", "oi", `"true"`, "jso.missing"}
+	argv := []string{`"d"`, "5", "jso.w", "jso.nul", "st.Id", "true", "oi", `"true"`, "jso.missing", "jso.esc", "jso.esc2", "jso.esc"}
 	n := 3 + r.intn(5)
 	for i := 0; i < n; i++ {
 		d := pick(r, dsts)
@@ -786,7 +794,7 @@ func genBuiltinJob(r *prng, st map[string]int) Job {
 		default:
 			as := []string{}
 			for k, m := 0, r.intn(4); k < m; k++ {
-				as = append(as, pick(r, []string{"jso.s1", "jso.s2", "jso.e", `"abc"`, "jso.w", "st.Name", "st.Id", "jso.nul", "jso.n", `""`[0:0] + `"x y"`}))
+				as = append(as, pick(r, []string{"jso.s1", "jso.s2", "jso.e", `"abc"`, "jso.w", "jso.esc", "jso.esc2", "st.Name", "st.Id", "jso.nul", "jso.n", `""`[0:0] + `"x y"`}))
 			}
 			lines = append(lines, pick(r, []string{"ts.I64", "obj.Status", "ts.S", "ts.U32"})+" = crc32("+strings.Join(as, ", ")+")")
 		}
@@ -800,3 +808,59 @@ func genBuiltinJob(r *prng, st map[string]int) Job {
 }
 
 var _ = strconv.Itoa
+
+// aliasOracle: a function registered with a namespace and an alias is reachable
+// under ns::name and ns::alias (and under nothing else), and a rule written
+// with either spelling calls it with the written arguments.
+func aliasOracle(sum *Summary) {
+	registerUserFuncs()
+	getters, mods, cbs := decoder.VerifRegisteredNames()
+	has := func(l []string, n string) bool {
+		for _, x := range l {
+			if x == n {
+				return true
+			}
+		}
+		return false
+	}
+	for _, w := range []struct {
+		l    []string
+		kind string
+		yes  []string
+		no   []string
+	}{{mods, "modifier", []string{"vns::tail", "vns::tl", "plaintail", "ptl", "ns::suffix"}, []string{"tl", "tail"}},
+		{cbs, "callback", []string{"vns::note", "vns::nt", "ns::probe"}, []string{"nt", "note"}},
+		{getters, "getter", []string{"vns::konst", "vns::kn"}, []string{"kn"}}} {
+		for _, n := range w.yes {
+			if !has(w.l, n) {
+				addFail(sum, "a "+w.kind+" registered with a namespace and an alias is not reachable under "+n, nil, n+" registered", "missing")
+			}
+		}
+		for _, n := range w.no {
+			if has(w.l, n) {
+				addFail(sum, "a "+w.kind+" registered in a namespace is reachable under the bare name "+n, nil, n+" not registered", "registered")
+			}
+		}
+	}
+	doc, _ := parseJV(`{"s":"bob"}`)
+	for _, sp := range []string{"vns::tail", "vns::tl", "plaintail", "ptl"} {
+		c := singleJob("alias "+sp, Job{Prog: "obj.Name = jso.s|" + sp + "(\"!\", \"?\")|" + sp + "(\".\")\nobj.Id = vns::kn()\nvns::nt(jso.s, 1)\n", doc: doc, Fail: -1})
+		if err := c.exec(); err != nil {
+			addFail(sum, "a rule using the registered spelling "+sp+" is rejected: "+err.Error(), c, "accepted", "rejected")
+			continue
+		}
+		sum.Evaluations++
+		o := c.Obs[0]
+		if o.Res != "None" || o.Fields[0][1] != "B:bob!?." || o.Fields[0][0] != "S:VK" {
+			addFail(sum, "a modifier / getter written with a registered namespace::alias spelling did not run with its written arguments", c, "Name = bob!?. , Id = VK", fmt.Sprint(o.Res, " ", o.Fields[0][:2], " ", o.Trace))
+		}
+	}
+}
+
+func runC17(cfg *runCfg) (*Summary, error) {
+	return runInterp(cfg, "C17", 220, 2500,
+		"calls with 0-5 arguments mixing literals, paths, loop / static / context variables and coalesce groups; chains of 0-4 modifiers (builtin, user, namespaced); coalesce sources with 1-3 keys in all missing / null / present patterns; every user function records the arguments it receives",
+		func(r *prng, i int, st map[string]int) *ICase {
+			return singleJob("calls", genCallsJob(r, st))
+		}, hasTrace, noPanic)
+}
